@@ -134,4 +134,21 @@ example :
     (readRows (σ := Unit) ⟨.yield, 1, some 2⟩ [col] [] false [[['x']], [['x']], [['x']]] []).events
       = [.err 1 (.field 0), .row [['x']]] := by decide
 
+/-- **What has been read does not depend on what follows.** Whatever rows - and whatever container fault - come after the rows
+`a`: the events a reader has delivered and the calls it has made when it is through with `a` are the beginning of the events and
+calls of reading everything.  This is what lets the validate-only API stop after N data rows: nothing behind them is looked at. -/
+theorem C07_prefix_blind (cfg : ReaderCfg) (cols : List Column) (checks : List (Check σ)) (fault : Bool) (a b : List Row) (before : List σ) :
+    (readRows cfg cols checks false a before).events <+: (readRows cfg cols checks fault (a ++ b) before).events ∧
+    (readRows cfg cols checks false a before).log <+: (readRows cfg cols checks fault (a ++ b) before).log := by
+  unfold readRows
+  have := readLoop_prefix cfg cols checks fault b a 0 ⟨checks.map (·.reset), 0, 0⟩
+  exact ⟨this.1, (List.prefix_append_right_inj _).mpr this.2⟩
+
+/-- a reader that is abandoned after `k` events has delivered the same `k` events whatever came after the rows it needed for them -/
+theorem C07_stop_blind (cfg : ReaderCfg) (cols : List Column) (checks : List (Check σ)) (fault : Bool) (a b : List Row) (before : List σ)
+    (k : Nat) (hk : k ≤ (readRows cfg cols checks false a before).events.length) :
+    (readRows cfg cols checks fault (a ++ b) before).events.take k = (readRows cfg cols checks false a before).events.take k := by
+  obtain ⟨t, ht⟩ := (C07_prefix_blind cfg cols checks fault a b before).1
+  rw [← ht, List.take_append_of_le_length hk]
+
 end Cutplace.Props
